@@ -93,6 +93,10 @@ func acceptTransports(ctx context.Context, listener TransportListener, c chan<- 
 	for {
 		transport, err := listener.Accept(ctx)
 		if err != nil {
+			if ctx.Err() != nil {
+				// the server is closing: the listener's own error is a consequence of it
+				return ctx.Err()
+			}
 			return err
 		}
 		select {
